@@ -330,7 +330,29 @@ def input_mutations(fi, skip_params=('self', 'cls')):
     return [(st, nm) for st, nm, _ in shared_entry_mutations(fi, init={p: p for p in params}, tables=False)]
 
 
-def shared_entry_mutations(fi, sites=None, init=None, tables=True, call_sources=None, attr_sources=None, attr_tables=None):
+_PASS = {}
+
+
+def _passthrough_params(g, _depth=[0]):
+    """names of the parameters of g that some `return` of g may hand back (the array itself or a view of it)."""
+    if g.qual in _PASS:
+        return _PASS[g.qual]
+    _PASS[g.qual] = set()           # recursion guard
+    if _depth[0] > 3:
+        return set()
+    _depth[0] += 1
+    try:
+        rets = []
+        params = [p for p in g.params if p not in ('self', 'cls')]
+        shared_entry_mutations(g, init={p: p for p in params}, tables=False, returns=rets)
+        out = {r for r in rets if r in params}
+    finally:
+        _depth[0] -= 1
+    _PASS[g.qual] = out
+    return out
+
+
+def shared_entry_mutations(fi, sites=None, init=None, tables=True, call_sources=None, attr_sources=None, attr_tables=None, returns=None):
     """In-place writes through a name that may alias an entry of a table shared between loop iterations.
 
     Inside a `for` loop, `v = T[i][j]` (T bound outside the loop, basic/int/key indexing: the same object or a view)
@@ -390,6 +412,22 @@ def shared_entry_mutations(fi, sites=None, init=None, tables=True, call_sources=
             name = fn.attr if isinstance(fn, ast.Attribute) else (fn.id if isinstance(fn, ast.Name) else '')
             if name in VIEW_FUNCS and v.args:
                 return value_alias(v.args[0], st, ctx)
+            # a helper of the same module that may hand one of its arguments back (`return x` on some path): what it returns may be
+            # the caller's own array
+            if isinstance(fn, ast.Name):
+                g = getattr(fi.module, 'functions', {}).get(fn.id)
+                if g is not None and g is not fi:
+                    for pname in _passthrough_params(g):
+                        arg = None
+                        if pname in g.params and g.params.index(pname) < len(v.args):
+                            arg = v.args[g.params.index(pname)]
+                        for k in v.keywords:
+                            if k.arg == pname:
+                                arg = k.value
+                        if arg is not None and not isinstance(arg, ast.Starred):
+                            r = value_alias(arg, st, ctx)
+                            if r:
+                                return r
         return None
 
     def block(stmts, st, ctx):
@@ -441,6 +479,22 @@ def shared_entry_mutations(fi, sites=None, init=None, tables=True, call_sources=
             inner = (_stored_names(s.body) | _stored_names([s.target]), unique_names(s))
             if ctx is not None:
                 inner = (inner[0], inner[1] | ctx[1])
+            # the entries of a sequence the caller handed over are the caller's arrays too
+            st = dict(st)
+            srcs = None
+            if isinstance(s.iter, ast.Call) and isinstance(s.iter.func, ast.Name) and s.iter.func.id == 'zip' and isinstance(s.target, ast.Tuple) and len(s.target.elts) == len(s.iter.args):
+                srcs = list(zip(s.target.elts, s.iter.args))
+            elif isinstance(s.iter, ast.Call) and isinstance(s.iter.func, ast.Name) and s.iter.func.id == 'enumerate' and isinstance(s.target, ast.Tuple) and len(s.target.elts) == 2 and s.iter.args:
+                srcs = [(s.target.elts[1], s.iter.args[0])]
+            elif isinstance(s.target, ast.Name):
+                srcs = [(s.target, s.iter)]
+            for t_, src_ in srcs or []:
+                if isinstance(t_, ast.Name):
+                    r_ = value_alias(src_, st, None) if isinstance(src_, (ast.Name, ast.Attribute)) else None
+                    if r_ and not tables:
+                        st[t_.id] = 'an entry of ' + r_
+                    else:
+                        st.pop(t_.id, None)
             cur = st
             for _ in range(2):          # second pass: aliases created late in the body reach its head
                 n_before = len(found)
@@ -451,6 +505,12 @@ def shared_entry_mutations(fi, sites=None, init=None, tables=True, call_sources=
                 st = join(st, block(getattr(s, fld, []) or [], st, ctx))
             for h in getattr(s, 'handlers', []) or []:
                 st = join(st, block(h.body, st, ctx))
+        if isinstance(s, ast.Return) and s.value is not None and returns is not None:
+            vals = s.value.elts if isinstance(s.value, ast.Tuple) else [s.value]
+            for rv in vals:
+                r = value_alias(rv, st, None)
+                if r:
+                    returns.append(r)
         if isinstance(s, (ast.Expr, ast.Assign, ast.Return, ast.AugAssign)):
             val = getattr(s, 'value', None)
             if val is not None:
